@@ -339,9 +339,13 @@ func checkC19(c *Ctx) {
 			// maps: first ranges over a map built from c.keys, second over a map filled from Latch()
 			latch := p.Func(hkPkg, "(*Counter).Latch")
 			okLatch := false
-			eachInstr(col, func(_ *ssa.BasicBlock, _ int, in ssa.Instruction) {
-				if mu, ok := in.(*ssa.MapUpdate); ok && mu.Map == second.rng.X {
-					if derives(mu.Key, func(v ssa.Value) bool {
+			for _, lf := range append([]*ssa.Function{col}, staticCalleesDeep(col, 2)...) {
+				eachInstr(lf, func(_ *ssa.BasicBlock, _ int, in ssa.Instruction) {
+					mu, ok := in.(*ssa.MapUpdate)
+					if !ok {
+						return
+					}
+					fromLatch := derives(mu.Key, func(v ssa.Value) bool {
 						nx, ok := v.(*ssa.Next)
 						if !ok {
 							return false
@@ -352,11 +356,27 @@ func checkC19(c *Ctx) {
 						}
 						cl, ok := r.X.(*ssa.Call)
 						return ok && isCallToFn(cl, latch)
-					}) {
+					})
+					if !fromLatch {
+						return
+					}
+					// the filled map is the one the new-keys loop ranges over: the same value, or returned by this helper
+					if mu.Map == second.rng.X {
 						okLatch = true
 					}
-				}
-			})
+					if call, ok := second.rng.X.(*ssa.Call); ok && calleeFn(call.Common()) == lf {
+						eachInstr(lf, func(_ *ssa.BasicBlock, _ int, x ssa.Instruction) {
+							if ret, ok := x.(*ssa.Return); ok {
+								for _, r := range ret.Results {
+									if r == mu.Map {
+										okLatch = true
+									}
+								}
+							}
+						})
+					}
+				})
+			}
 			c.Check(okLatch, "R5", "accessed map is filled from Latch()", col.Pos(), "keys of accessed come from counter.Latch()", "the accessed-keys map is not filled from the counters' Latch results")
 		}
 	}
@@ -426,7 +446,10 @@ func checkC19(c *Ctx) {
 			if cc == nil || calleeFn(cc) != nil || cc.IsInvoke() {
 				return
 			}
-			if f, _ := loadedField(cc.Value); f != nil && f.Name() == "freeCb" {
+			if f, _ := loadedField(cc.Value); f != nil {
+				if _, isSig := f.Type().Underlying().(*types.Signature); !isSig {
+					return
+				}
 				c.Check(le.heldAt(in)[cmu] == lockNone, "R4", "free callback runs without Counter.mu", in.Pos(), "lockset empty at the callback", "the free callback (which takes the collector lock) is invoked with Counter.mu held while the collector latches counters under its own lock: lock-order inversion")
 			}
 		})
